@@ -4,6 +4,7 @@ import EupsModel.Lemmas.RecordEndToEnd
 import EupsModel.Lemmas.RecordDir
 import EupsModel.Lemmas.RecordQual
 import EupsModel.Lemmas.RecordMacro
+import EupsModel.Lemmas.RecordMacroText
 /-! C16 — database records round-trip and stacks are relocatable.  Property theorems only.
 Model and the specification-side definitions used in the statements (`DirPl`, `TabPl`, `DirPl.at`, `TabPl.at`,
 `declaredProd`, `canonInfo`, `PlaceOK`, `DeclEx`, `ReadEx`, `readBack`): `Model/Record.lean`; helper lemmas:
@@ -281,6 +282,44 @@ theorem C16_macro_proddir_abs_witness :
       { productDir := some (MDir.abs [[111], [104]]).toRec, tableFile := some (MTab.prodDir [sUps, [104, 46, 116]]).toRec,
         upsDir := some (MUps.none).toRec }).map (fun p => (p.dir, p.table))
     = .ok (.path ⟨true, [[111], [104]]⟩, .path ⟨false, [mPROD_DIR, sUps, [104, 46, 116]]⟩) := by rfl
+
+/-- **Macro records through the text of the version file**: the record a person writes (`macroRec`: one block with
+the three entries as written, `MacroTextOK`: everything in it is clean text and a `UPS_DIR` line is present) is what
+`VersionFile.write` prints and `VersionFile._read` reads back, and `makeProduct` for a reader whose stack is at `R`
+reports what the macros denote. -/
+theorem C16_macro_records_via_text (ex : Path → Bool) (R : List Str) (name version f who now : Str) (md : MDir)
+    (mu : MUps) (mt : MTab) (hR : SegsOK R) (hf : SegOK f) (hwf : MacroWF md mu mt)
+    (ht : MacroTextOK name version f who now md mu mt) :
+    ∃ text,
+      printVersion (macroRec name version f who now md mu mt) = .ok (some text) ∧
+      parseVersion (some name) (some version) text = .ok (macroRec name version f who now md mu mt) ∧
+      (makeProduct ex (macroRec name version f who now md mu mt) f (absP (R ++ [sUpsDb]))).map
+          (fun p => (p.dir, p.table))
+        = .ok (md.denote R f, mt.denote ex R f (md.denote R f) (mu.denote R f (md.denote R f))) :=
+  macro_via_text ex R name version f who now md mu mt hR hf hwf ht
+
+/-- Non-vacuity of `MacroTextOK`: the instance above, declared by `r` at `T1`. -/
+example : MacroTextOK [104] [49] [76] [114] [84, 49] (.prodRoot [[112], mFLAVOR, [104]]) (.prodDir [sUps])
+    (.upsDir [[104, 46, 116]]) := by
+  have c : ∀ s : Str, s ≠ [] → 35 ∉ s → 10 ∉ s → 13 ∉ s → 34 ∉ s → (∀ c, s.head? = some c → Str.isSpace c = false) →
+      (∀ c, s.getLast? = some c → Str.isSpace c = false) → Clean s := fun s a b c d e f g => ⟨a, b, c, d, e, f, g⟩
+  have cc : ∀ s : Str, s ≠ [] → 35 ∉ s → 10 ∉ s → 13 ∉ s → 34 ∉ s → (∀ c, s.head? = some c → Str.isSpace c = false) →
+      (∀ c, s.getLast? = some c → Str.isSpace c = false) → 47 ∉ s → SegC s := fun s a b c' d e f g h => ⟨c s a b c' d e f g, h⟩
+  refine ⟨c _ (by decide) (by decide) (by decide) (by decide) (by decide) (by decide) (by decide),
+    c _ (by decide) (by decide) (by decide) (by decide) (by decide) (by decide) (by decide), by decide,
+    ⟨c _ (by decide) (by decide) (by decide) (by decide) (by decide) (by decide) (by decide), by decide⟩,
+    c _ (by decide) (by decide) (by decide) (by decide) (by decide) (by decide) (by decide),
+    c _ (by decide) (by decide) (by decide) (by decide) (by decide) (by decide) (by decide), ?_, ?_, ?_⟩
+  all_goals
+    refine ⟨?_, fun _ => ⟨by simp [MDir.toRec, MUps.toRec, MTab.toRec], by decide⟩⟩
+    intro s hs
+    simp only [MDir.toRec, MUps.toRec, MTab.toRec, List.mem_cons, List.not_mem_nil, or_false] at hs
+  · rcases hs with rfl | rfl | rfl | rfl <;>
+      exact cc _ (by decide) (by decide) (by decide) (by decide) (by decide) (by decide) (by decide) (by decide)
+  · rcases hs with rfl | rfl <;>
+      exact cc _ (by decide) (by decide) (by decide) (by decide) (by decide) (by decide) (by decide) (by decide)
+  · rcases hs with rfl | rfl <;>
+      exact cc _ (by decide) (by decide) (by decide) (by decide) (by decide) (by decide) (by decide) (by decide)
 
 /-! ## End to end -/
 
